@@ -73,9 +73,6 @@ func VerifC19_listing() {
 		vfAssert(has(n), "listing-includes-registered-names")
 	}
 	for _, name := range list {
-		if lname := name; vfCI(lname, "html") {
-			continue // the HTML renderer is exercised by C06 (template evaluation)
-		}
 		dotted := vfHasDot(name)
 		if dotted {
 			vfTag("registered-name-with-dot")
